@@ -42,6 +42,16 @@ def case(ctx, i, rec):
     rec.sig = zoo.ts_sig(ts, tuple(sorted(kw.items())))
     if i < 3:
         rec.sample = dict(recipe=r, kw=kw)
+    # hook on the name rescale_tree_sequence looks up: ages before positive branch lengths are enforced
+    seen = []
+    orig_constrain = getattr(rescaling, "constrain_ages", None)
+    if orig_constrain is not None:
+        def spy(ts_, nodes_time, *a, **k):
+            before = np.array(nodes_time, copy=True)
+            res = orig_constrain(ts_, nodes_time, *a, **k)
+            seen.append((before, np.array(res, copy=True)))
+            return res
+        rescaling.constrain_ages = spy
     try:
         out = rescaling.rescale_tree_sequence(ts, mu, **kw)
     except Exception as e:
@@ -52,6 +62,9 @@ def case(ctx, i, rec):
         else:
             rec.violation("raised:" + common.exc_key(e)[:70], f"valid contemporaneous input raised {common.exc_key(e)}")
         return
+    finally:
+        if orig_constrain is not None:
+            rescaling.constrain_ages = orig_constrain
     rec.count("returned")
     rec.count(f"returned:intervals={kw['num_intervals']}")
     issample = common.is_sample(ts)
@@ -76,8 +89,25 @@ def case(ctx, i, rec):
     tin, tout = ts.nodes_time, out.nodes_time
     if np.any(tout[issample] != tin[issample]):
         v("sample-time-changed", "a sample's time changed")
+    # the map is judged on the ages the rescaling itself produced; the enforcement of positive
+    # branch lengths afterwards may only nudge them (by the minimum branch length per level)
+    tmap = tout
+    if len(seen) == 1:
+        pre, post_ = seen[0]
+        rec.count("returns_with_constrain_hook_observed")
+        if not np.array_equal(post_, tout):
+            v("output-times-not-the-constrained-times", "nodes_time of the output differ from what constrain_ages returned")
+        nudge = float(np.max(np.abs(post_ - pre))) if len(pre) else 0.0
+        rec.maxi("max_nudge_by_constrain_ages", nudge)
+        if nudge > 0:
+            rec.count("returns_where_constrain_ages_changed_a_time")
+        if nudge > 1e-8 * ts.num_nodes + 1e-12 * float(np.max(np.abs(pre), initial=0.0)):
+            v("constrain-nudge-too-large", f"enforcing positive branches moved a node by {nudge!r}")
+        tmap = pre
+    elif len(seen) > 1:
+        v("constrain-called-more-than-once", f"{len(seen)} calls")
     o = np.argsort(tin[~issample], kind="stable")
-    xs, ys = tin[~issample][o], tout[~issample][o]
+    xs, ys = tin[~issample][o], tmap[~issample][o]
     if np.any(np.diff(ys) < -1e-9 * np.abs(ys[1:])):
         j = int(np.flatnonzero(np.diff(ys) < -1e-9 * np.abs(ys[1:]))[0])
         v("time-map-not-monotone", f"input times {xs[j]!r} < {xs[j + 1]!r} mapped to {ys[j]!r} > {ys[j + 1]!r}")
